@@ -341,6 +341,10 @@ class BaseInterpreter(Generic[TContext, TEvent]):
         self._actor_sources: Dict[str, str] = {}
         #: Current nesting depth of action expansion.
         self._action_depth: int = 0
+        #: True while an external transition (or the initial entry) is under
+        #: way; `_fail` defers its subscriber notification while it is.
+        self._transition_in_flight: bool = False
+        self._failure_notice_deferred: bool = False
         self._actors: Dict[str, "BaseInterpreter[Any, Any]"] = {}
 
         # 🔗 Extensibility & Introspection
@@ -1925,6 +1929,7 @@ class BaseInterpreter(Generic[TContext, TEvent]):
         #    still propagates so the caller learns the transition failed.
         self._cancelled_in_transition = []
         self._entered_in_transition = []
+        self._transition_in_flight = True
         try:
             await self._exit_states(
                 sorted(
@@ -1998,7 +2003,13 @@ class BaseInterpreter(Generic[TContext, TEvent]):
                 if node in snapshot_before:
                     self._schedule_state_tasks(node)
             self._cancelled_in_transition = []
+            self._transition_in_flight = False
+            if self._failure_notice_deferred:
+                self._failure_notice_deferred = False
+                self._notify_subscribers()
             raise
+        self._transition_in_flight = False
+        self._failure_notice_deferred = False
 
         # 6. Notify plugins and subscribers of the completed transition.
         for plug in self._plugins:
@@ -2557,6 +2568,16 @@ class BaseInterpreter(Generic[TContext, TEvent]):
             hook = getattr(plugin, "on_error", None)
             if callable(hook):
                 hook(self, error)
+        # 👀 A service can fail while a transition is still under way: inline
+        #    in the sync engine (it runs when its state is entered, before the
+        #    descent into that state's children), or from its own task while
+        #    the async engine is suspended in an awaiting action. Subscribers
+        #    notified right now would be handed a half-entered configuration.
+        #    The transition's own end notifies them, with the error status
+        #    already visible.
+        if self._transition_in_flight:
+            self._failure_notice_deferred = True
+            return
         self._notify_subscribers()
 
     def _complete(self, output: Any) -> None:
